@@ -2,6 +2,7 @@ package g_wire
 
 import (
 	"bytes"
+	"context"
 	"fmt"
 	"net"
 	"os"
@@ -21,12 +22,36 @@ type c02Case struct {
 	Calls     []lib.CallSpec `json:"calls"`
 	Transport string         `json:"transport"` // mem | netpipe | unix | tcp
 	Version   string         `json:"server_version,omitempty"`
+	// HookCtx: the server has a dispatch hook that gives every call its own
+	// context: "live" (cancelled when the call ends) or "expired" (already past
+	// its deadline when the call starts — a stream then runs no turn). "" = no hook.
+	HookCtx string `json:"hook_ctx,omitempty"`
 }
 
-func newScriptedServer(version string) *vgirpc.Server {
+// ctxHook is a dispatch hook that derives a per-call context.
+type ctxHook struct{ expired bool }
+
+func (h ctxHook) OnDispatchStart(ctx context.Context, _ vgirpc.DispatchInfo) (context.Context, vgirpc.HookToken) {
+	c, cancel := context.WithCancel(ctx)
+	if h.expired {
+		cancel()
+	}
+	return c, cancel
+}
+
+func (h ctxHook) OnDispatchEnd(_ context.Context, tok vgirpc.HookToken, _ vgirpc.DispatchInfo, _ *vgirpc.CallStatistics, _ error) {
+	if cancel, ok := tok.(context.CancelFunc); ok {
+		cancel()
+	}
+}
+
+func newScriptedServer(version string, hookCtx ...string) *vgirpc.Server {
 	srv := vgirpc.NewServer()
 	srv.SetServerID("srv-1")
 	lib.RegisterScripted(srv)
+	if len(hookCtx) > 0 && hookCtx[0] != "" {
+		srv.SetDispatchHook(ctxHook{expired: hookCtx[0] == "expired"})
+	}
 	if version != "" {
 		srv.SetProtocolVersion(version)
 	}
@@ -41,6 +66,7 @@ func genC02(t *rapid.T) c02Case {
 	if rapid.IntRange(0, 3).Draw(t, "versioned") == 0 {
 		c.Version = "2.3.4"
 	}
+	c.HookCtx = []string{"", "", "", "live", "expired"}[rapid.IntRange(0, 4).Draw(t, "hookctx")]
 	n := rapid.IntRange(1, 12).Draw(t, "ncalls")
 	for i := 0; i < n; i++ {
 		call := lib.GenCall(t, lib.CallID(i))
@@ -182,6 +208,9 @@ func serveOver(transport string, srv *vgirpc.Server, input []byte) (lib.PipeResu
 func runC02(c c02Case) (out lib.Outcome) {
 	lib.ResetEvents()
 	out.Label("transport:" + c.Transport)
+	if c.HookCtx != "" {
+		out.Label("hook-ctx:" + c.HookCtx)
+	}
 	calls := append(append([]lib.CallSpec{}, c.Calls...), sentinelCall())
 	var input bytes.Buffer
 	expected := make([]int, len(calls))
@@ -208,7 +237,7 @@ func runC02(c c02Case) (out lib.Outcome) {
 	if laterAfterFail {
 		out.Label("fail-then-later-call")
 	}
-	res, terr := serveOver(c.Transport, newScriptedServer(c.Version), input.Bytes())
+	res, terr := serveOver(c.Transport, newScriptedServer(c.Version, c.HookCtx), input.Bytes())
 	if terr != nil {
 		out.Violate("C02/serve-did-not-finish", "%v", terr)
 		return
@@ -251,7 +280,7 @@ func runC02(c c02Case) (out lib.Outcome) {
 		for i, call := range calls {
 			// compare with the call alone
 			req, in := call.PipeBytes()
-			alone := lib.RunPipe(newScriptedServer(c.Version), append(append([]byte{}, req...), in...))
+			alone := lib.RunPipe(newScriptedServer(c.Version, c.HookCtx), append(append([]byte{}, req...), in...))
 			if len(alone.Streams) != expected[i] {
 				key = lib.Keyf("C02", "response-count", call.Kind, call.BadParams, fmt.Sprintf("refused=%v", versionRefused(c.Version, call.Opts)))
 				idx = i
@@ -269,7 +298,7 @@ func runC02(c c02Case) (out lib.Outcome) {
 		pos += expected[i]
 		start, end := group[0].Start, group[len(group)-1].End
 		req, in := call.PipeBytes()
-		alone := lib.RunPipe(newScriptedServer(c.Version), append(append([]byte{}, req...), in...))
+		alone := lib.RunPipe(newScriptedServer(c.Version, c.HookCtx), append(append([]byte{}, req...), in...))
 		if alone.Panic != "" || alone.DecodeErr != nil || len(alone.Streams) != expected[i] {
 			out.Violate(lib.Keyf("C02", "alone-malformed", call.Kind), "call #%d alone: panic=%q decode=%v streams=%d want %d", i, alone.Panic, alone.DecodeErr, len(alone.Streams), expected[i])
 			continue
@@ -280,7 +309,7 @@ func runC02(c c02Case) (out lib.Outcome) {
 				i, call.Kind, call.Method, d, lib.Short(describe(), 600))
 		}
 		last := group[len(group)-1]
-		if f, ok := call.Fails(); ok {
+		if f, ok := call.Fails(); ok && c.HookCtx != "expired" {
 			f = f || ((call.Kind == "unary" || call.Kind == "stream") && versionRefused(c.Version, call.Opts))
 			gotErr := len(last.Batches) > 0 && last.Batches[len(last.Batches)-1].Kind() == "error"
 			if f != gotErr {
